@@ -41,6 +41,8 @@ type c12El struct {
 type c12Exp struct {
 	Path  []int `json:"path"`
 	Mpath []int `json:"mpath"`
+	// Mps[m-1]: the chain when only headings of level <= m open a section
+	Mps [][]int `json:"mps,omitempty"`
 }
 
 type c12Case struct {
@@ -53,6 +55,8 @@ type c12Case struct {
 	OnlyMode string `json:"only_mode,omitempty"`
 	TraceMod int    `json:"tm,omitempty"`
 	Heavy    bool   `json:"heavy,omitempty"` // also run the 32 000-character presets
+	Tree     bool   `json:"tree,omitempty"`  // also run the MinHeadingLevel 1..6 configurations
+	Lean     bool   `json:"lean,omitempty"`  // size presets are irrelevant (heading trees): default + MinHeadingLevel configurations only
 }
 
 // ---------------------------------------------------------------- configs
@@ -63,6 +67,8 @@ type c12Cfg struct {
 	maxChars int    // nominal hard maximum in bytes, used to size paragraphs
 	minChars int    // nominal minimum chunk size in bytes (0 = 100), used to size paragraphs
 	heavy    bool
+	mhl      int  // rag.Chunker: ChunkerConfig.MinHeadingLevel (0 = the default 3)
+	treeOnly bool // run only on documents marked "tree" (heading trees, simulated and random documents)
 	run      func(doc *model.Document) ([]*rag.Chunk, error)
 }
 
@@ -76,6 +82,28 @@ func c12ElemCfg(name string, max int, heavy bool, sc func() rag.SizeConfig) c12C
 	return c12Cfg{name: name, api: "elem", maxChars: max, minChars: min, heavy: heavy, run: func(d *model.Document) ([]*rag.Chunk, error) {
 		return rag.ChunkDocumentWithConfig(d, rag.DefaultChunkerConfig(), sc()).Chunks, nil
 	}}
+}
+
+// c12MhlCfg: the layout-based chunker with MinHeadingLevel m (headings deeper than
+// m are content of the enclosing section).
+func c12MhlCfg(m int) c12Cfg {
+	return c12Cfg{name: fmt.Sprintf("NewChunkerMHL%d", m), api: "layout", maxChars: 2000, minChars: 100, mhl: m, treeOnly: true,
+		run: func(d *model.Document) ([]*rag.Chunk, error) {
+			cc := rag.DefaultChunkerConfig()
+			cc.MinHeadingLevel = m
+			r, err := rag.NewChunkerWithConfig(cc).Chunk(d)
+			if err != nil {
+				return nil, err
+			}
+			return r.Chunks, nil
+		}}
+}
+
+func (cfg c12Cfg) minHeading() int {
+	if cfg.mhl > 0 {
+		return cfg.mhl
+	}
+	return 3
 }
 
 func c12Configs() []c12Cfg {
@@ -118,6 +146,12 @@ func c12Configs() []c12Cfg {
 				return nil, err
 			}
 			return r.Chunks, nil
+		}},
+		c12MhlCfg(1), c12MhlCfg(2), c12MhlCfg(4), c12MhlCfg(5), c12MhlCfg(6),
+		{name: "ElemMHL1", api: "elem", maxChars: 2000, minChars: 100, treeOnly: true, run: func(d *model.Document) ([]*rag.Chunk, error) {
+			cc := rag.DefaultChunkerConfig()
+			cc.MinHeadingLevel = 1 // the element chunker has no such setting: every heading opens a section
+			return rag.ChunkDocumentWithConfig(d, cc, rag.DefaultSizeConfig()).Chunks, nil
 		}},
 		{name: "NewChunkerTiny", api: "layout", maxChars: 240, minChars: 40, run: func(d *model.Document) ([]*rag.Chunk, error) {
 			r, err := rag.NewChunkerWithConfig(tiny).Chunk(d)
@@ -380,6 +414,9 @@ type c12Obs struct {
 	Total  int      `json:"total"`
 	Titles []string `json:"titles,omitempty"`
 	Text   string   `json:"text,omitempty"` // only for a chunk without any unit
+	// Title: the heading element the chunk's SectionTitle (and the "[title]" line of
+	// TextWithContext) names; -1 = none shown, 0 = text that is no heading of the document
+	Title int `json:"title"`
 }
 
 func c12Strip(s string) string {
@@ -412,7 +449,15 @@ func c12Project(chunks []*rag.Chunk, r *c12Rendered, api string) []c12Obs {
 	seenHead := map[int]bool{}
 	for i, ch := range chunks {
 		o := c12Obs{Index: ch.Metadata.ChunkIndex, ID: ch.ID, Ps: ch.Metadata.PageStart, Pe: ch.Metadata.PageEnd,
-			Total: ch.Metadata.TotalChunks, Path: []int{}, Units: []int{}}
+			Total: ch.Metadata.TotalChunks, Path: []int{}, Units: []int{}, Title: -1}
+		if len(ch.Metadata.SectionPath) > 0 {
+			o.Title = r.titleEl[ch.Metadata.SectionTitle]
+			if twc := ch.TextWithContext; strings.HasPrefix(twc, "[") {
+				if end := strings.Index(twc, "]\n\n"); end < 0 || r.titleEl[twc[1:end]] != o.Title {
+					o.Title = 0 // the context line names something else than the section title
+				}
+			}
+		}
 		for _, t := range ch.Metadata.SectionPath {
 			o.Path = append(o.Path, r.titleEl[t]) // 0 = not a heading of this document
 			if r.titleEl[t] == 0 {
@@ -482,7 +527,7 @@ func c12Events(c *c12Case, r *c12Rendered, obs []c12Obs, cfg c12Cfg, mode string
 	}
 	minor := 7
 	if cfg.api == "layout" {
-		minor = 4 // ChunkerConfig.MinHeadingLevel = 3: deeper headings are content
+		minor = cfg.minHeading() + 1 // headings deeper than ChunkerConfig.MinHeadingLevel are content
 	}
 	if strings.HasPrefix(cfg.api, "pdf") {
 		minor = 0 // headings detected by heuristics: the weak path rule of the contract
@@ -493,7 +538,7 @@ func c12Events(c *c12Case, r *c12Rendered, obs []c12Obs, cfg c12Cfg, mode string
 	evs := []Event{{"event": "Doc", "els": els, "pages": c.Pages, "minor": minor, "tag": cfg.api + ":" + mode, "cfg": cfg.name, "case": rc}}
 	totals := make([]int, len(obs))
 	for i, o := range obs {
-		ev := Event{"event": "Emit", "rs": c12Runs(o.Units), "index": o.Index, "id": o.ID, "ps": o.Ps, "pe": o.Pe, "path": o.Path}
+		ev := Event{"event": "Emit", "rs": c12Runs(o.Units), "index": o.Index, "id": o.ID, "ps": o.Ps, "pe": o.Pe, "path": o.Path, "title": o.Title}
 		if o.Text != "" {
 			ev["text"] = o.Text
 		}
@@ -527,7 +572,7 @@ func c12EqInts(a, b []int) bool {
 
 // c12Compare checks the projected chunks against the expectation the spec
 // emitted with the case (paths) and the rendering order of the units.
-func c12Compare(c *c12Case, r *c12Rendered, obs []c12Obs, api string) *c12Fail {
+func c12Compare(c *c12Case, r *c12Rendered, obs []c12Obs, api string, mhl int) *c12Fail {
 	want := 1
 	later := map[int]bool{}
 	for _, o := range obs {
@@ -542,6 +587,13 @@ func c12Compare(c *c12Case, r *c12Rendered, obs []c12Obs, api string) *c12Fail {
 		el := r.unitEl[u]
 		e := c.Doc[el-1]
 		return fmt.Sprintf("unit %d (%s of element %d: %s(%d) on page %d)", u, c12Tok(u), el, e.K, e.A, e.Pg)
+	}
+	// the section title is the innermost entry of the section path (judged first: a
+	// path that names the wrong section also misattributes headings carried as metadata)
+	for i, o := range obs {
+		if o.Title != -1 && len(o.Path) > 0 && o.Title != o.Path[len(o.Path)-1] {
+			return &c12Fail{"path", fmt.Sprintf("chunk %d has section path %v (heading elements) but its SectionTitle / context line names heading element %d", i, o.Path, o.Title), i, o.Title}
+		}
 	}
 	ids := map[string]bool{}
 	for i, o := range obs {
@@ -589,8 +641,15 @@ func c12Compare(c *c12Case, r *c12Rendered, obs []c12Obs, api string) *c12Fail {
 		}
 		okPath := false
 		for el := range elset {
-			if c12EqInts(o.Path, c.Els[el-1].Path) || (api == "layout" && c12EqInts(o.Path, c.Els[el-1].Mpath)) {
+			if c12EqInts(o.Path, c.Els[el-1].Path) || (api == "layout" && mhl == 3 && c12EqInts(o.Path, c.Els[el-1].Mpath)) {
 				okPath = true
+			}
+		}
+		if api == "layout" && mhl >= 1 && mhl <= 6 {
+			for el := range elset {
+				if mps := c.Els[el-1].Mps; len(mps) == 6 && c12EqInts(o.Path, mps[mhl-1]) {
+					okPath = true
+				}
 			}
 		}
 		if strings.HasPrefix(api, "pdf") {
@@ -724,6 +783,12 @@ func c12ReplayCase(i int, raw []byte) Result {
 			if cfg.api == "layout" && !c.Lnorm {
 				continue
 			}
+			if cfg.treeOnly && !c.Tree && c.OnlyCfg == "" {
+				continue
+			}
+			if c.Lean && c.OnlyCfg == "" && !cfg.treeOnly && cfg.name != "ChunkDocument" && cfg.name != "NewChunker" {
+				continue
+			}
 			if cfg.heavy && !c.Heavy && c.OnlyCfg == "" {
 				continue
 			}
@@ -747,7 +812,7 @@ func c12ReplayCase(i int, raw []byte) Result {
 			if c.TraceMod > 0 && (i*31+ci*7+len(mode))%c.TraceMod == 0 {
 				res.Events = append(res.Events, c12Events(&c, r, obs, cfg, mode)...)
 			}
-			if f := c12Compare(&c, r, obs, cfg.api); f != nil {
+			if f := c12Compare(&c, r, obs, cfg.api, cfg.minHeading()); f != nil {
 				sig := "C12:" + f.clause + ":" + cfg.api
 				if ft := c12Feature(&c, r, f, cfg, mode); ft != "" {
 					sig += ":" + ft
